@@ -153,6 +153,17 @@ CHECKS = {
          "is listed as known the fingerprint ignores Segment objects (only those).",
     technique="symbolic execution of real code (CrossHair/z3), fingerprint equality",
     ref="DESIGN.md §2 C20"),
+ "C08": dict(
+    text="Symbolic execution of the in-memory chain matchfile_from_alignment -> MatchFile -> note_alignment_from_matchfile / "
+         "performed_part_from_match / part_from_matchfile on a concrete small score per instance and a symbolic performance (onsets of "
+         "unmatched notes, durations, velocities, pedal values; ms times): same alignment entries and ids, pitch/velocity, ticks = nearest "
+         "tick, seconds consistent with the file's clock, pedal events, clock units/rate, score notes with the same onset/duration in beats, "
+         "spelling, voice, staff, key signatures and measures at their bars. Engine B proves the tick<->seconds kernels (relative-error model).",
+    note="No text: writing/reading the file and duplicate-id resolution of load_matchfile are outside (line text is C07's). The score half runs on "
+         "concrete shapes only (two measures, optional pickup, key change at a barline); matched performed notes have pinned onsets (they are "
+         "interpolation knots: non-linear otherwise). Performed ids of the form n<k>.",
+    technique="symbolic execution of real code (CrossHair/z3) + AST->SMT float kernel proof",
+    ref="DESIGN.md §2 C08"),
 }
 NOT_APPLICABLE = {
  "C18": "float32/transcendental codec chain (log2, 2**x, mean/std, symbolic/symbolic division) over ~600 lines of vectorised numpy: non-linear with transcendental terms, z3 answers unknown; no sound bounded encoding within reach (DESIGN.md §2 C18)",
